@@ -115,7 +115,7 @@ def run(ctx):
                 stack.append(t["kind"])
             elif t["op"] in ("ok", "fail") and stack:
                 k = stack.pop()
-                if t["op"] == "fail" and k == "create" and t.get("mode") in ("fault", "write"):
+                if t["op"] == "fail" and k == "create" and t.get("mode") in ("fault", "write", "oversize"):
                     n += 1
         return n
     rhist = [h for h in all_one if has(h, lambda t: t.get("op") == "log") and burning_creates(h) <= 1]
